@@ -381,3 +381,35 @@ def dataclass_self(V):
         V.check(z == y and type(z) is type(y) and dict(z) == dict(y), 'idempotent:reparse-changed:dataclass-' + label,
                 lambda: '%s(**%r) = %r; %s re-parse -> %r' % (name, items, y, label, z))
     V.cover('accept')
+
+
+# ------------------------------------------------------------------ a lax constraint beside strict ones
+@ob('lax/with-strict', marks=['accept', 'reject'], budget=(60, 200),
+    bounds='Rule[int](ge=a | le=a strict, multiple_of=Lax(k)), a solver int -3..3, k in {2, 3}, x unbounded solver int; '
+           'Rule[str](regex=[a-z]+(-[a-z]+)* strict, max_length=Lax(3)) on 8 picked strings; Rule[list](min_length=2 strict, '
+           'unique_items=Lax(True)) on lists of <= 3 ints 0..1: an accepted output satisfies the strict constraints as well and is a fixed point')
+def lax_with_strict(V):
+    import re as _re
+    kind = V.pick('kind', ['int-ge', 'int-le', 'str', 'list'])
+    if kind in ('int-ge', 'int-le'):
+        a, k, x = V.int('a', -3, 3), V.pick('k', [2, 3]), V.int('x')
+        T = Rule.annotate(int, constraints={'ge' if kind == 'int-ge' else 'le': a, 'multiple_of': Lax(k)})
+        strict_ok = lambda y: (y >= a if kind == 'int-ge' else y <= a) and y % k == 0
+    elif kind == 'str':
+        x = V.pick('s', ['ab-cd', 'abc-d', 'a-b', 'abcd', 'ab', 'a--b', '-ab', 'abc'])
+        T = Rule.annotate(str, constraints={'regex': '[a-z]+(-[a-z]+)*', 'max_length': Lax(3)})
+        strict_ok = lambda y: _re.fullmatch('[a-z]+(-[a-z]+)*', y) is not None and len(y) <= 3
+    else:
+        x = [V.int('e%d' % i, 0, 1) for i in range(V.pick('n', [0, 1, 2, 3]))]
+        T = Rule.annotate(list, constraints={'min_length': 2, 'unique_items': Lax(True)})
+        strict_ok = lambda y: len(y) >= 2 and len(set(y)) == len(y)
+    r = run(T, x)
+    if r[0] != 'ok':
+        V.cover('reject')
+        return
+    y = r[1]
+    det = lambda: '%s: %r -> %r' % (kind, x, y)
+    V.check(strict_ok(y), 'lax:with-strict:output-violates-a-strict-constraint', det)
+    r2 = run(T, y)
+    V.check(r2[0] == 'ok' and same(r2[1], y), 'lax:with-strict:not-a-fixed-point', lambda: det() + ' -> %r' % (r2[1:],))
+    V.cover('accept')
